@@ -46,6 +46,7 @@ func cloneRef(m map[string][]byte) map[string][]byte {
 	return n
 }
 
+// witness 3: the scripted workload of the repaired finding F44 (must hold).
 // witness 1, 2: the scripted workloads of the known findings F44b and F45 (a mixed workload whose
 // NoSync phase forces a full compaction with every compaction sync switched off; a mixed workload whose
 // NoSync phase appends), so that every run meets them; 0: a generated workload.
@@ -66,6 +67,10 @@ func runCrashWorkload(r *rng, dir string, witness int) (*crashWorkload, error) {
 		cfg.NoSync, cfg.CompactionSync, cfg.SyncAfterBytes = false, false, -1
 	case 2:
 		cfg.NoSync, cfg.CompactionSync, cfg.SyncAfterBytes, cfg.Concern = false, false, 0, 0
+	case 3:
+		// F44's situation (repaired): a zero-valued CompactionSyncAfterBytes stands for its default, whose
+		// sync at the end of compaction has to make the new file durable before the old one is unlinked
+		cfg.NoSync, cfg.CompactionSync, cfg.SyncAfterBytes = false, false, 0
 	}
 	h := newH(cfg, dir)
 	h.gating = 0
@@ -88,7 +93,7 @@ func runCrashWorkload(r *rng, dir string, witness int) (*crashWorkload, error) {
 	if witness > 0 {
 		rounds, switchAt, w.mixed = 3, 1, true
 		w.optOut = witness == 1
-		forceInPhase2 = witness == 1
+		forceInPhase2 = witness == 1 || witness == 3
 	}
 	syncedPhase := true
 	ref := map[string][]byte{}
@@ -378,7 +383,7 @@ func famCrash(w *bufio.Writer, seed uint64, n int) error {
 		r := newRng(cs ^ 0x5c)
 		dir := mustMkdirTemp(workDir, "crashsrc")
 		witness := 0
-		if wi < 2 && os.Getenv("VERIF_NO_WITNESS") == "" {
+		if wi < 3 && os.Getenv("VERIF_NO_WITNESS") == "" {
 			witness = wi + 1
 		}
 		wl, err := runCrashWorkload(r, dir, witness)
@@ -468,7 +473,7 @@ func famCrash(w *bufio.Writer, seed uint64, n int) error {
 		if witness > 0 {
 			for i := wl.switchOps; i < len(wl.ops); i++ {
 				op := wl.ops[i]
-				if witness == 1 && op.Kind == "remove" && seqOf(op.File) >= 0 {
+				if (witness == 1 || witness == 3) && op.Kind == "remove" && seqOf(op.File) >= 0 {
 					wpt, wstrategy = i+1, 0
 					break
 				}
